@@ -55,7 +55,7 @@ chk("C11", "exploration",
     "DESIGN.md §5 C11, §4.4", True)
 chk("C12", "model_checking",
     "product explicit-state BFS over several logs with a differential oracle (each log's answers compared with a one-log witness replaying only its requests), all interleavings of per-log histories, and enumeration of identity / configuration cases",
-    "For every reachable product state of two logs that share a signing key under different origins (IDs forced to share a prefix) and of three logs, every request naming log X - including every other log's checkpoints submitted under X's ID - must leave all other components byte-identical and must be answered exactly as a witness that only ever saw X's requests answers it. By induction this covers interleavings of any length; all interleavings of independently chosen histories are also executed directly. Identity: six interfaces derive the same ID for 15 origins; all 84 small configurations are refused iff an origin repeats.",
+    "For every reachable product state of two logs that share a signing key under different origins (IDs forced to share a prefix) and of three logs, every request naming log X - including every other log's checkpoints submitted under X's ID - must leave all other components byte-identical and must be answered exactly as a witness that only ever saw X's requests answers it. By induction this covers interleavings of any length; all interleavings of independently chosen histories are also executed directly. Identity: six interfaces derive the same ID for 15 origins; all 84 small configurations are refused iff an origin repeats. omniwitness.Main run for real per polling feeder type over logs whose key name differs from their origin: what the log published must be served under ID(origin).",
     "Bounded sizes (0..3/4). Single-log reference runs on the same code (differential, not an independent model) - the independent model is C09's.",
     "DESIGN.md §5 C12")
 chk("C13", "fault_enumeration",
@@ -75,7 +75,7 @@ chk("C16", "model_checking",
     "DESIGN.md §5 C16")
 chk("C02", "exploration",
     "bounded-exhaustive input enumeration: complete byte-level 1-edit neighbourhoods and line-level edits of valid checkpoints plus all cross-log replays, with a one-directional authenticity oracle (set of texts the harness signed; crypto/ed25519 directly)",
-    "Every prefix, single-bit flip, 8 boundary substitutions and deletion at every byte of 4 seed checkpoints, 25 signature-block / body-line edits, and every checkpoint of every log submitted under every other ID and unknown IDs, in 3 configurations (incl. two logs sharing a key under different origins) x empty/seeded witness. Anything accepted or stored must be a text the configured key signed with the configured origin as first line; inputs the harness decides are unauthentic must be refused with no state change.",
+    "Every prefix, single-bit flip, 8 boundary substitutions and deletion at every byte of 4 seed checkpoints, 25 signature-block / body-line edits, and every checkpoint of every log submitted under every other ID and unknown IDs, in 7 configurations (incl. two logs sharing a key under different origins, two keys with the same name, and two keys with the same name AND the same 32-bit key hash) x empty/seeded witness; every configured origin signed only by each key that is not its own. Anything accepted or stored must be a text the configured key signed with the configured origin as first line; inputs the harness decides are unauthentic must be refused with no state change.",
     "Exhaustive over the stated neighbourhoods, not over all byte strings. Ed25519 unforgeability is the ground truth.",
     "DESIGN.md §5 C02")
 chk("C17", "exploration",
